@@ -389,6 +389,11 @@ def check_C16(tier: str, v: Verdict):
         v.cov["spec_behaviours_replayed"] = replayed
         v.cov["spec_behaviours_not_followed"] = len(res_b) - replayed
         results += res_b
+        # every edge of the complete state graph of a small configuration (three calls with the same name),
+        # replayed on real threads; the thorough tier adds the 14.7 k edges of the dup+stat configuration
+        results += replay_edge_cover(v, root, rng, 400, which=("triple",))
+        if tier == "thorough":
+            results += replay_edge_cover(v, root, rng, 2500, which=("dup",))
         # (C -> S) the code's own yield points: bounded preemption + seeded random schedules
         for sc in C16_SCENARIOS:
             base, jobs = preemption_schedules(sc, root / ("dfs-" + sc["name"]), 10 if tier == "quick" else 120, rng)
@@ -555,3 +560,105 @@ def check_C17(tier: str, v: Verdict):
 
 
 REGISTRY = {"C16": check_C16, "C17": check_C17}
+
+
+# --------------------------------------------------------------------------------------
+# edge cover of the model's state graph (S -> C, thorough tier)
+# --------------------------------------------------------------------------------------
+_NODE = re.compile(r'^(-?\d+) \[label="((?:[^"\\]|\\.)*)"', re.M)
+_EDGE = re.compile(r'^(-?\d+) -> (-?\d+) \[label="([^"]*)"', re.M)
+_LOP = re.compile(r'lastop = \[p \|-> (-?\d+), op \|-> \\"(\w+)\\"\]')
+
+
+def graph_edge_cover(cfg: str, max_paths: int, rng):
+    """dump the complete state graph of a small Aggregator configuration (without the VIEW, so that every
+    state remembers the operation that led to it) and compute paths from the initial state that together
+    cover every edge; each path is a schedule for the controller."""
+    sdir = common.scratch("graph")
+    try:
+        dot = sdir / "g.dot"
+        r = run_tlc("MC_Aggregator", cfg, cont=False, workers=4, extra=["-dump", "dot,actionlabels", str(dot)], timeout=900)
+        if r.errors or not dot.exists():
+            raise Machinery(f"could not dump the state graph of {cfg}: {r.errors[:1]}")
+        text = dot.read_text()
+        lop = {}
+        first = None
+        for m in _NODE.finditer(text):
+            mm = _LOP.search(m.group(2))
+            if mm:
+                lop[m.group(1)] = (int(mm.group(1)), mm.group(2))
+                if first is None:
+                    first = m.group(1)
+        out_edges = {}
+        edges = set()
+        for m in _EDGE.finditer(text):
+            a, b = m.group(1), m.group(2)
+            if a == b:
+                continue
+            out_edges.setdefault(a, []).append(b)
+            edges.add((a, b))
+        covered = set()
+        paths = []
+        # distance to the nearest uncovered edge is recomputed lazily by BFS
+        def next_hop(node):
+            seen = {node}
+            frontier = [(node, None)]
+            while frontier:
+                nxt = []
+                for n, firsthop in frontier:
+                    for d in out_edges.get(n, []):
+                        fh = firsthop or d
+                        if (n, d) not in covered:
+                            return fh
+                        if d not in seen:
+                            seen.add(d)
+                            nxt.append((d, fh))
+                frontier = nxt
+            return None
+        while len(covered) < len(edges) and len(paths) < max_paths:
+            node, path = first, []
+            while True:
+                outs = out_edges.get(node, [])
+                fresh = [d for d in outs if (node, d) not in covered]
+                d = rng.choice(fresh) if fresh else next_hop(node)
+                if d is None:
+                    # nothing uncovered reachable: finish the behaviour along any edge so that the session ends
+                    d = outs[0] if outs else None
+                    if d is None:
+                        break
+                covered.add((node, d))
+                path.append(lop[d])
+                node = d
+                if len(path) > 400:
+                    break
+            paths.append(path)
+        return paths, len(edges), len(covered), r
+    finally:
+        shutil.rmtree(sdir, ignore_errors=True)
+
+
+def replay_edge_cover(v: Verdict, root: Path, rng, max_paths: int, which=("triple", "dup")):
+    results = []
+    for cfg, sc in (("MC_Agg_c16_triple_graph.cfg", C16_SCENARIOS[1]), ("MC_Agg_c16_dup_graph.cfg", C16_SCENARIOS[0])):
+        if sc["name"].split("+")[0] not in which:
+            continue
+        paths, n_edges, n_cov, r = graph_edge_cover(cfg, max_paths, rng)
+        v.add_tlc(r)
+        jobs, expect = [], {}
+        for i, p in enumerate(paths):
+            tag = f"edge-cover-{sc['name']}-{i}"
+            expect[tag] = p
+            jobs.append((sc, [{"policy": ("script", [a for a, _ in p]), "kill_at": None}], str(root / f"ec{sc['name']}{i}"), tag))
+        res = run_histories(jobs)
+        followed = 0
+        for r_ in res:
+            got = [(p, op) for p, op in r_["ops"]]
+            want = expect[r_["tag"]]
+            if got == want:
+                followed += 1
+            else:
+                k = next((i for i, (a, b) in enumerate(zip(got, want)) if a != b), min(len(got), len(want)))
+                v.notes.append(f"edge cover: code left the model's path at step {k}: code {got[k:k+1]} model {want[k:k+1]} ({r_['tag']})")
+        v.cov.setdefault("edge_cover", {})[sc["name"]] = {"graph_edges": n_edges, "edges_on_paths": n_cov, "paths": len(paths), "paths_followed_exactly": followed}
+        results += res
+    return results
